@@ -92,6 +92,9 @@ func (P) Gen(rng *sim.Rng, tier string) *harness.Case {
 			if m == rs.Hotspot && r.Var == 6 {
 				r.Var = 2
 			}
+			if r.Aborts() {
+				r.Var = 2 // (a load abandoned half-way is the subject of C13's histories)
+			}
 			if r.NotJSON() {
 				r.Var = 2 // NaN / Inf thresholds cannot be written in JSON
 			}
